@@ -1327,7 +1327,7 @@ func funToString(v interface{}) (string, error) {
 func funToInt(v interface{}) (*decimal.Big, error) {
 	n := convToNumber(v)
 	iv, _ := n.Int64()
-	return newDecimalBig().SetFloat64(float64(iv)), nil
+	return newDecimalBig().SetMantScale(iv, 0), nil
 }
 
 func funToFloat(v interface{}) (*decimal.Big, error) {
